@@ -2,6 +2,8 @@ package main
 
 import (
 	"fmt"
+	"strings"
+	"sync"
 
 	"golang.org/x/tools/go/ssa"
 )
@@ -12,11 +14,11 @@ import (
 // every explored schedule).
 
 type accessRec struct {
-	wG     int // goroutine of last write (-1 none)
-	wClk   int
-	wPos   string
-	reads  map[int]int // goroutine -> clock of last read
-	rdPos  map[int]string
+	wG    int // goroutine of last write (-1 none)
+	wClk  int
+	wPos  ssa.Instruction
+	reads map[int]int // goroutine -> clock of last read
+	rdPos map[int]ssa.Instruction
 }
 
 type raceState struct {
@@ -123,6 +125,11 @@ func (m *Machine) raceAccess(g *G, key interface{}, write bool, in ssa.Instructi
 	if len(m.gs) <= 1 {
 		return
 	}
+	if m.inLinearisableModel(in) {
+		// harness models of thread-safe library objects (connections, recorders) are linearisable by
+		// construction: they only change state in blocks delimited by visible operations
+		return
+	}
 	r := m.raceRec(key)
 	m.vcTick(g)
 	// conflict with last write by another goroutine?
@@ -131,22 +138,22 @@ func (m *Machine) raceAccess(g *G, key interface{}, write bool, in ssa.Instructi
 		if write {
 			kind = "write"
 		}
-		panic(stopPath{&PathEnd{Kind: "race", Msg: fmt.Sprintf("DATA RACE: %s at %s conflicts with write at %s in another goroutine", kind, m.pos(in), r.wPos)}})
+		panic(stopPath{&PathEnd{Kind: "race", Msg: fmt.Sprintf("DATA RACE: %s at %s conflicts with write at %s in another goroutine", kind, m.pos(in), m.pos(r.wPos))}})
 	}
 	if write {
 		for rg, clk := range r.reads {
 			if rg != g.id && vcGet(g.vc, rg) < clk {
-				panic(stopPath{&PathEnd{Kind: "race", Msg: fmt.Sprintf("DATA RACE: write at %s conflicts with read at %s in another goroutine", m.pos(in), r.rdPos[rg])}})
+				panic(stopPath{&PathEnd{Kind: "race", Msg: fmt.Sprintf("DATA RACE: write at %s conflicts with read at %s in another goroutine", m.pos(in), m.pos(r.rdPos[rg]))}})
 			}
 		}
-		r.wG, r.wClk, r.wPos = g.id, g.vc[g.id], m.pos(in)
+		r.wG, r.wClk, r.wPos = g.id, g.vc[g.id], in
 		r.reads, r.rdPos = nil, nil
 	} else {
 		if r.reads == nil {
-			r.reads, r.rdPos = map[int]int{}, map[int]string{}
+			r.reads, r.rdPos = map[int]int{}, map[int]ssa.Instruction{}
 		}
 		r.reads[g.id] = g.vc[g.id]
-		r.rdPos[g.id] = m.pos(in)
+		r.rdPos[g.id] = in
 	}
 }
 
@@ -169,4 +176,34 @@ func (m *Machine) raceWriteObj(g *G, o interface{}, in ssa.Instruction) {
 	if m.race != nil {
 		m.raceAccess(g, o, true, in)
 	}
+}
+
+var linModelCache sync.Map
+
+// inLinearisableModel: the access happens inside the harness model of a thread-safe library object
+// (the websocket connection model: methods of vConn and the verifWs* functions)
+func (m *Machine) inLinearisableModel(in ssa.Instruction) bool {
+	if in == nil || in.Parent() == nil {
+		return false
+	}
+	f := in.Parent()
+	if v, ok := linModelCache.Load(f); ok {
+		return v.(bool)
+	}
+	top := f
+	for top.Parent() != nil {
+		top = top.Parent()
+	}
+	is := false
+	if m.inHarness(in) {
+		n := top.Name()
+		if strings.HasPrefix(n, "verifWs") {
+			is = true
+		}
+		if recv := top.Signature.Recv(); recv != nil && strings.Contains(recv.Type().String(), ".vConn") {
+			is = true
+		}
+	}
+	linModelCache.Store(f, is)
+	return is
 }
